@@ -257,6 +257,57 @@ def _indexed_sources(cfg, e: ast.AST, at) -> list:
     return out
 
 
+def _r27f(chk) -> None:
+    import configparser
+    import os
+
+    from ..index import kwarg, norm, short
+
+    repo = chk.repo
+    m = repo.mod(CLI)
+    cfgp = os.path.join(repo.root, "src/sqlfluff/core/default_config.cfg")
+    cp = configparser.ConfigParser(interpolation=None)
+    cp.read(cfgp)
+    if not cp.has_section("sqlfluff"):
+        raise AnalysisError("R27f: default_config.cfg has no [sqlfluff] section")
+    core_keys = set(cp.options("sqlfluff"))
+    # names get_config drops when falsy
+    gc = repo.fn(CLI, "get_config")
+    dropped = set()
+    for st in ast.walk(gc):
+        if isinstance(st, ast.Delete):
+            for t in st.targets:
+                if isinstance(t, ast.Subscript) and isinstance(t.slice, ast.Constant):
+                    dropped.add(t.slice.value)
+    # the filter itself: overrides = {k: v ... if v is not None}
+    has_filter = any(isinstance(x, ast.DictComp) and x.generators and x.generators[0].ifs and "is not None" in norm(x.generators[0].ifs[0]) for x in ast.walk(gc))
+    chk.require(has_filter, "R27f", gc, "get_config no longer filters the command-line values by `is not None` before using them as overrides", detail="get_config: only given options become overrides")
+    n = 0
+    for c in [c for c in ast.walk(m.tree) if isinstance(c, ast.Call) and isinstance(c.func, ast.Attribute) and c.func.attr == "option" and norm(c.func.value) == "click"]:
+        names = [a.value for a in c.args if isinstance(a, ast.Constant) and isinstance(a.value, str)]
+        dest = None
+        plain = [x for x in names if not x.startswith("-")]
+        if plain:
+            dest = plain[0]
+        else:
+            longs = [x for x in names if x.startswith("--")]
+            if longs:
+                dest = longs[0].split("/")[0].lstrip("-").replace("-", "_")
+        if dest is None or dest not in core_keys:
+            continue
+        n += 1
+        d = kwarg(c, "default")
+        ok = (isinstance(d, ast.Constant) and d.value is None) or dest in dropped
+        chk.require(
+            ok, "R27f", c,
+            f"the option {names[-1]!r} (config key `{dest}`) has the default {short(d, 20) if d is not None else 'of a flag (False)'}: without the option on the command line that value still "
+            f"becomes a top-priority override, so `{dest}` set in a .sqlfluff / pyproject.toml file is ignored",
+            detail=f"option for config key {dest} defaults to None",
+        )
+    chk.count("R27f.options_for_config_keys", n)
+    chk.floor("R27f.options_for_config_keys", 6)
+
+
 def run(chk) -> None:
     chk.rule("R27a", "merge calls receive their arguments in precedence order, by provenance (user app-dir < home < parents < cwd..file < extra file; defaults < files < overrides); children inherit overrides / extra path / ignore-local")
     chk.rule("R27b", "outside FluffConfig the receiver of an in-place config update is a config created for that file in the same function (reviewed exceptions listed one by one)")
@@ -270,6 +321,8 @@ def run(chk) -> None:
     chk.rule("R27e", "nested_combine lets the later dict win for every key: each key of each later dict is stored into the result (or merged recursively, or rejected by a raise) on every path through the merge loop")
     _r27d(chk)
     _r27e(chk)
+    chk.rule("R27f", "a command-line option that is not given does not override the configuration files: every click option whose destination is a key of the [sqlfluff] section of default_config.cfg has default=None (get_config turns every non-None value into a top-priority override), or get_config removes it when it is falsy")
+    _r27f(chk)
 
 
 # ---------------------------------------------------------------------------
@@ -1515,6 +1568,12 @@ _INIT_MID = (
 )
 
 VARIANTS = [
+    Variant(
+        "disable-noqa-flag-defaults-to-false", CLI,
+        '        "--disable-noqa",\n        is_flag=True,\n        default=None,\n',
+        '        "--disable-noqa",\n        is_flag=True,\n        default=False,\n',
+        "R27f", None, "seeded C27-6: `disable_noqa = True` in a config file is overridden by the flag that was not given",
+    ),
     # behaviour-preserving refactors: must stay quiet
     Variant(
         "quiet-copy-through-temp", FLUFF,
